@@ -105,77 +105,8 @@ func runC13(c *Ctx) {
 		}
 	}
 
-	// ---- symbolic registration
-	ownerP, whenP, targetP := reg.Params[1], reg.Params[2], reg.Params[3]
 	run := func(owner types.Type, target, when int64) (regOutcome, string) {
-		env := map[ssa.Value]absVal{
-			ownerP:  {kind: "type", t: owner},
-			whenP:   {kind: "int", k: when},
-			targetP: {kind: "int", k: target},
-			reg.Params[0]: {kind: "nonnil", v: reg.Params[0]},
-		}
-		paths := symExec(reg, env, func(in ssa.Instruction) bool {
-			switch x := in.(type) {
-			case *ssa.Store:
-				return true
-			case *ssa.Call:
-				return x.Call.StaticCallee() == reg
-			}
-			return false
-		})
-		if len(paths) != 1 {
-			return regOutcome{}, fmt.Sprintf("%d paths (expected the inputs to determine one)", len(paths))
-		}
-		p := paths[0]
-		res := results(p.ret)
-		errV := res[len(res)-1]
-		out := regOutcome{listIdx: -1}
-		// delegation to the receiver table
-		if ex, ok := errV.(*ssa.Call); ok && ex.Call.StaticCallee() == reg {
-			if mi, ok := ex.Call.Args[1].(*ssa.MakeInterface); ok && mi.X == ssa.Value(reg.Params[0]) && ex.Call.Args[0] == ssa.Value(reg.Params[0]) &&
-				ex.Call.Args[2] == ssa.Value(whenP) && ex.Call.Args[3] == ssa.Value(targetP) {
-				out.selfCall = true
-				return out, ""
-			}
-			return out, "delegates to a registration with different arguments"
-		}
-		out.accepted = isNil(errV)
-		// the append store: *(&set.list) = append(...)
-		for _, in := range p.trace {
-			st, ok := in.(*ssa.Store)
-			if !ok {
-				continue
-			}
-			if _, isApp := isBuiltinCall(st.Val, "append"); !isApp {
-				continue
-			}
-			a, ok := p.env[st.Addr]
-			var addr ssa.Value = st.Addr
-			if ok && a.kind == "nonnil" {
-				addr = a.v
-			}
-			fa, ok := addr.(*ssa.FieldAddr)
-			if !ok {
-				continue
-			}
-			out.listIdx = fa.Field
-			sa, ok := p.env[fa.X]
-			var setAddr ssa.Value = fa.X
-			if ok && sa.kind == "nonnil" {
-				setAddr = sa.v
-			}
-			if sfa, ok := setAddr.(*ssa.FieldAddr); ok {
-				out.setField = fieldOfFieldAddr(sfa)
-				out.setOwner = c.ownerOf(out.setField)
-			}
-		}
-		if out.accepted && out.setField == nil {
-			return out, "returns nil without appending to a callback list"
-		}
-		if !out.accepted && out.listIdx >= 0 {
-			return out, "appends and then returns an error"
-		}
-		return out, ""
+		return symRegister(c, reg, owner, target, when)
 	}
 
 	// documented matrix: owner kind x target -> accepted
@@ -366,7 +297,7 @@ func runC13(c *Ctx) {
 		"(*tabular.ATable).InvokeRenderCallbacks": {"table/ATable PRE 0", "column/column PRE 1", "rows - 0", "rows - 1", "column/column POST 1", "table/ATable POST 0"},
 		"(*tabular.Row).invokeRenderCallbacks": {"row/Row PRE 0", "table/Cell PRE 1", "column/Cell PRE 1", "row/Cell PRE 1", "table/Cell RENDER 1", "cell/Cell RENDER 1",
 			"row/Cell POST 1", "column/Cell POST 1", "table/Cell POST 1", "row/Row POST 0"},
-		"(*tabular.Row).Add":          {"row/Cell ADD 0"},
+		"(*tabular.Row).Add":           {"row/Cell ADD 0"},
 		"(*tabular.ATable).AddRow":     {"row/Row ADD 0", "table/Row ADD 0", "column/Cell ADD 1", "table/Cell ADD 1"},
 		"(*tabular.ATable).AddHeaders": {"table/Row ADD 0", "column/Cell ADD 1", "table/Cell ADD 1"},
 	}
@@ -514,4 +445,77 @@ func runC13(c *Ctx) {
 		}
 	}
 	r.Floor("R13.5", "RenderTo methods", nrt, 5)
+}
+
+// symRegister executes RegisterPropertyCallback symbolically for one (owner type, target, time).
+func symRegister(c *Ctx, reg *ssa.Function, owner types.Type, target, when int64) (regOutcome, string) {
+	ownerP, whenP, targetP := reg.Params[1], reg.Params[2], reg.Params[3]
+	env := map[ssa.Value]absVal{
+		ownerP:        {kind: "type", t: owner},
+		whenP:         {kind: "int", k: when},
+		targetP:       {kind: "int", k: target},
+		reg.Params[0]: {kind: "nonnil", v: reg.Params[0]},
+	}
+	paths := symExec(reg, env, func(in ssa.Instruction) bool {
+		switch x := in.(type) {
+		case *ssa.Store:
+			return true
+		case *ssa.Call:
+			return x.Call.StaticCallee() == reg
+		}
+		return false
+	})
+	if len(paths) != 1 {
+		return regOutcome{}, fmt.Sprintf("%d paths (expected the inputs to determine one)", len(paths))
+	}
+	p := paths[0]
+	res := results(p.ret)
+	errV := res[len(res)-1]
+	out := regOutcome{listIdx: -1}
+	// delegation to the receiver table
+	if ex, ok := errV.(*ssa.Call); ok && ex.Call.StaticCallee() == reg {
+		if mi, ok := ex.Call.Args[1].(*ssa.MakeInterface); ok && mi.X == ssa.Value(reg.Params[0]) && ex.Call.Args[0] == ssa.Value(reg.Params[0]) &&
+			ex.Call.Args[2] == ssa.Value(whenP) && ex.Call.Args[3] == ssa.Value(targetP) {
+			out.selfCall = true
+			return out, ""
+		}
+		return out, "delegates to a registration with different arguments"
+	}
+	out.accepted = isNil(errV)
+	// the append store: *(&set.list) = append(...)
+	for _, in := range p.trace {
+		st, ok := in.(*ssa.Store)
+		if !ok {
+			continue
+		}
+		if _, isApp := isBuiltinCall(st.Val, "append"); !isApp {
+			continue
+		}
+		a, ok := p.env[st.Addr]
+		var addr ssa.Value = st.Addr
+		if ok && a.kind == "nonnil" {
+			addr = a.v
+		}
+		fa, ok := addr.(*ssa.FieldAddr)
+		if !ok {
+			continue
+		}
+		out.listIdx = fa.Field
+		sa, ok := p.env[fa.X]
+		var setAddr ssa.Value = fa.X
+		if ok && sa.kind == "nonnil" {
+			setAddr = sa.v
+		}
+		if sfa, ok := setAddr.(*ssa.FieldAddr); ok {
+			out.setField = fieldOfFieldAddr(sfa)
+			out.setOwner = c.ownerOf(out.setField)
+		}
+	}
+	if out.accepted && out.setField == nil {
+		return out, "returns nil without appending to a callback list"
+	}
+	if !out.accepted && out.listIdx >= 0 {
+		return out, "appends and then returns an error"
+	}
+	return out, ""
 }
